@@ -17,6 +17,7 @@ EXPLANATION = (
     "unwrapped. (3) Loudness - under restore and iter_entries a hunk or block that cannot be read is reported "
     "through the monitor, and every per-entry arm of restore that reports an error skips the rest of that entry. "
     "(4) Healing - missing blocks make a file be stored again and emptied block files count as absent."
+    " Added in later rounds: a second taint solve in which the newtypes of a decoded entry (Apath, BlockHash, ...) carry taint, reported outside the write side; allocation sized by decoded data; read_hunk returns only decoded entries (C10.3g); the hunk listing hides no file (C10.3h); an unreadable hunk does not end its band (C10.3i)."
 )
 UNDECIDED = ["termination under arbitrary garbage beyond the stitch termination measure (C08)",
              "exactness of what still restores", "allocation size on a decompression bomb",
